@@ -355,12 +355,12 @@ Section Hist.
 
   (* every answer of the callback *)
   Definition success_from (s : sreq) (x : out) : Prop :=
-    from_uri (s_uri s) x \/ x = OFormBlocked \/ exists t, u_form (info (s_uri s)) = Some t /\ x = OForm t.
+    from_uri (s_uri s) x \/ x = OFormBlocked \/ x = OUndelivered \/ exists t, u_form (info (s_uri s)) = Some t /\ x = OForm t.
 
   Lemma success_is s : success_from s (success info s).
   Proof.
     unfold success, success_from. destruct (String.eqb (s_mode s) "form_post").
-    - destruct (u_form (info (s_uri s))) as [t|] eqn:E; [right; right; eauto | right; left; reflexivity].
+    - destruct (u_form (info (s_uri s))) as [t|] eqn:E; [right; right; right; eauto | right; left; reflexivity].
     - left. destruct (response_url info (s_uri s) (s_rt s) (s_mode s) "") eqn:E;
         [eapply response_url_from; eauto | left; reflexivity].
   Qed.
@@ -392,15 +392,68 @@ Section Hist.
       try (split; [right; exists n; reflexivity | right; exists n, s; repeat split; auto using success_is]).
   Qed.
 
+  (* ---- a write fault changes neither the store nor where an answer points ---- *)
+  Lemma deliver_page w x : is_page x = true -> is_page (deliver w x) = true.
+  Proof. destruct w, x; cbn; congruence. Qed.
+
+  Lemma deliver_from_uri w u x : from_uri u x -> from_uri u (deliver w x).
+  Proof.
+    intros [Hp|[fr [code [cq [cf [Hk ->]]]]]].
+    - left. apply deliver_page, Hp.
+    - right. exists fr, code, cq, cf. split; [assumption|]. destruct w; reflexivity.
+  Qed.
+
+  Lemma deliver_login w p : deliver w (OLogin p) = OLogin p.
+  Proof. destruct w; reflexivity. Qed.
+
+  Lemma deliver_success w s x : success_from s x -> success_from s (deliver w x).
+  Proof.
+    intros [H|[->|[->|[t [Ht ->]]]]].
+    - left. apply deliver_from_uri, H.
+    - destruct w; cbn; [right; left | right; right; left | right; left]; reflexivity.
+    - destruct w; cbn; right; right; left; reflexivity.
+    - destruct w; cbn; [right; right; right; eauto | right; right; left; reflexivity | right; right; right; eauto].
+  Qed.
+
+  Lemma step_authorize r st q w :
+    step st (Authorize r q w) = (fst (authorize r st q), deliver w (snd (authorize r st q))).
+  Proof. cbn [step]. destruct (authorize r st q); reflexivity. Qed.
+
+  Lemma step_callback r st k f w :
+    step st (Callback r k f w) = (fst (callback st k f), deliver w (snd (callback st k f))).
+  Proof. cbn [step]. destruct (callback st k f); reflexivity. Qed.
+
+  Lemma step_authorize_shape r st q w : authorize_shape st q (step st (Authorize r q w)).
+  Proof.
+    rewrite step_authorize. pose proof (authorize_has_shape r st q) as S.
+    unfold authorize_shape, core_ok in *. cbn [fst snd].
+    destruct S as [[E Hp]|[q' [He [c [Hc [Hnf [Hv [[E [Hf Hl]]|[E El]]]]]]]]].
+    - left. split; [assumption | apply deliver_page, Hp].
+    - right. exists q'. split; [assumption|]. exists c. repeat (split; [assumption|]).
+      left. split; [assumption|]. split; [apply deliver_from_uri, Hf|].
+      eapply from_uri_not_login, deliver_from_uri, Hf.
+    - right. exists q'. split; [assumption|]. exists c. repeat (split; [assumption|]).
+      right. split; [assumption|]. rewrite El. apply deliver_login.
+  Qed.
+
+  Lemma step_callback_shape r st k f w : callback_shape st k (step st (Callback r k f w)).
+  Proof.
+    rewrite step_callback. pose proof (callback_has_shape st k f) as [Hs Hx].
+    unfold callback_shape. cbn [fst snd]. split; [assumption|].
+    destruct Hx as [Hp|[n [s [Hk [Hn Hsf]]]]].
+    - left. apply deliver_page, Hp.
+    - right. exists n, s. repeat (split; [assumption|]). apply deliver_success, Hsf.
+  Qed.
+
   Lemma step_valid st o : valid_st st -> valid_st (fst (step st o)).
   Proof.
-    intro H. destruct o as [r q|k|r k f]; cbn [step].
-    - pose proof (authorize_has_shape r st q) as S. unfold authorize_shape, core_ok in S.
+    intro H. destruct o as [r q w|k|r k f w].
+    - pose proof (step_authorize_shape r st q w) as S. unfold authorize_shape, core_ok in S.
       destruct S as [[-> _]|[q' [He [c [Hc [Hnf [Hv [[-> _]|[-> _]]]]]]]]]; try assumption.
       apply Forall_app. split; [assumption|]. constructor; [|constructor].
       exists c. cbn. auto.
     - cbn. apply update_nth_valid; auto using mark_done_valid.
-    - pose proof (callback_has_shape st k f) as [[->|[n ->]] _]; [assumption|].
+    - pose proof (step_callback_shape r st k f w) as [[->|[n ->]] _]; [assumption|].
       apply update_nth_valid; auto using mark_dead_valid.
   Qed.
 
@@ -421,8 +474,9 @@ Section Hist.
     success_from s x ->
     target_ok glob info cs cid cands (s_rt s) x = true.
   Proof.
-    intros Hc Hv Hi [H|[->|[t [Ht ->]]]].
+    intros Hc Hv Hi [H|[->|[->|[t [Ht ->]]]]].
     - eapply target_ok_from; eauto.
+    - reflexivity.
     - reflexivity.
     - cbn. rewrite Hc. apply existsb_exists. exists (s_uri s). split; [assumption|].
       rewrite Ht. unfold C03_spec.registered.
@@ -431,7 +485,7 @@ Section Hist.
 
   Lemma success_not_login s x : success_from s x -> is_login x = false.
   Proof.
-    intros [H|[->|[t [_ ->]]]]; [eapply from_uri_not_login; eauto | reflexivity | reflexivity].
+    intros [H|[->|[->|[t [_ ->]]]]]; [eapply from_uri_not_login; eauto | reflexivity | reflexivity | reflexivity].
   Qed.
 
   Lemma must_page_no_validate q q' c :
@@ -467,8 +521,8 @@ Section Hist.
     induction ops as [|o ops IH]; intros st created Hst HR; [reflexivity|].
     cbn [run]. destruct (step st o) as [st' x] eqn:Es.
     pose proof (step_valid st o Hst) as Hst'. rewrite Es in Hst'. cbn [fst] in Hst'.
-    destruct o as [r q|k|r k f]; cbn [step] in Es; cbn [spec_hist].
-    - pose proof (authorize_has_shape r st q) as S. rewrite Es in S. unfold authorize_shape, core_ok in S. cbn [fst snd] in S.
+    destruct o as [r q w|k|r k f w]; cbn [spec_hist].
+    - pose proof (step_authorize_shape r st q w) as S. rewrite Es in S. unfold authorize_shape, core_ok in S. cbn [fst snd] in S.
       destruct S as [[-> Hp]|[q' [He [c [Hc [Hnf [Hv [[-> [Hf Hl]]|[-> ->]]]]]]]]].
       + rewrite Hp, (page_target_ok _ _ _ _ Hp), (page_login_ok _ _ Hp), (page_not_login _ Hp).
         destruct (must_page glob info cs q); cbn; apply IH; assumption.
@@ -482,9 +536,9 @@ Section Hist.
         cbn. rewrite Hc, String.eqb_refl. cbn.
         apply IH; [assumption|]. apply Forall2_app; [assumption|].
         constructor; [|constructor]. unfold R. cbn. auto.
-    - inversion Es; subst. apply IH; [assumption|].
+    - cbn [step] in Es. inversion Es; subst. apply IH; [assumption|].
       apply update_nth_R; [|assumption]. intros s e H. exact H.
-    - pose proof (callback_has_shape st k f) as [Hs Hx]. rewrite Es in Hs, Hx. cbn [fst snd] in Hs, Hx.
+    - pose proof (step_callback_shape r st k f w) as [Hs Hx]. rewrite Es in Hs, Hx. cbn [fst snd] in Hs, Hx.
       assert (HR' : Forall2 R st' created).
       { destruct Hs as [->|[n ->]]; [assumption | apply update_nth_R; [|assumption]].
         intros s e H. exact H. }
@@ -515,19 +569,20 @@ Section Hist.
 
   Lemma step_safe st o : valid_st st -> safe_out (snd (step st o)).
   Proof.
-    intro Hst. destruct o as [r q|k|r k f]; cbn [step].
-    - pose proof (authorize_has_shape r st q) as S. unfold authorize_shape, core_ok in S.
+    intro Hst. destruct o as [r q w|k|r k f w].
+    - pose proof (step_authorize_shape r st q w) as S. unfold authorize_shape, core_ok in S.
       destruct S as [[_ Hp]|[q' [He [c [Hc [Hnf [Hv [[_ [Hf _]]|[_ ->]]]]]]]]].
-      + destruct (snd (authorize r st q)); cbn in Hp; try discriminate. exact I.
+      + destruct (snd (step st (Authorize r q w))); cbn in Hp; try discriminate. exact I.
       + eapply from_uri_safe; eauto using find_client_In.
       + exact I.
     - exact I.
-    - pose proof (callback_has_shape st k f) as [_ [Hp|[n [s [_ [Hn Hsf]]]]]].
-      + destruct (snd (callback st k f)); cbn in Hp; try discriminate. exact I.
+    - pose proof (step_callback_shape r st k f w) as [_ [Hp|[n [s [_ [Hn Hsf]]]]]].
+      + destruct (snd (step st (Callback r k f w))); cbn in Hp; try discriminate. exact I.
       + unfold valid_st in Hst. rewrite Forall_forall in Hst.
         destruct (Hst s (nth_error_In _ _ Hn)) as [c [Hc Hv]].
-        destruct Hsf as [H|[->|[t [Ht ->]]]].
+        destruct Hsf as [H|[->|[->|[t [Ht ->]]]]].
         * eapply from_uri_safe; eauto using find_client_In.
+        * exact I.
         * exact I.
         * cbn. exists c, (s_uri s), (s_rt s). repeat split; eauto using find_client_In.
           all: apply (predicate_sound glob loopf c _ _ Hv).
@@ -538,6 +593,27 @@ Section Hist.
     induction ops as [|o ops IH]; intros st Hst; cbn [run]; [constructor|].
     pose proof (step_safe st o Hst) as Hs. pose proof (step_valid st o Hst) as Hv.
     destruct (step st o) as [st' x]. constructor; [exact Hs | apply IH; exact Hv].
+  Qed.
+
+  (* a write fault is local: the answers of a history with write faults are, position by position,
+     what `deliver` leaves of the answers of the same history without them. In particular an
+     answer written without a fault is the answer of the fault-free history, whatever was cut
+     before it (nothing of an undelivered answer can turn up in a later one). *)
+  Lemma step_clear st o :
+    step st o = (fst (step st (op_clear o)), deliver (op_cut o) (snd (step st (op_clear o)))).
+  Proof.
+    destruct o as [r q w|k|r k f w]; cbn [op_clear op_cut].
+    - rewrite !step_authorize. reflexivity.
+    - reflexivity.
+    - rewrite !step_callback. reflexivity.
+  Qed.
+
+  Theorem write_fault_local ops : forall st,
+    run st ops = map (fun p => deliver (fst p) (snd p)) (combine (map op_cut ops) (run st (map op_clear ops))).
+  Proof.
+    induction ops as [|o ops IH]; intro st; [reflexivity|].
+    cbn [run map]. rewrite (step_clear st o).
+    destruct (step st (op_clear o)) as [st' x]. cbn [fst snd combine map]. rewrite IH. reflexivity.
   Qed.
 
   Theorem direct_error r st q :
@@ -589,8 +665,8 @@ Definition ex_req (u : string) : areq :=
 
 Example C03_nonvacuous :
   run ex_glob ex_info true EK_Plain [ex_client] []
-      [Authorize Provider (ex_req "https://sub.example.com/cb"); Login 0; Callback Legacy (Some 0) CF_None;
-       Authorize Legacy (ex_req "https://evil.example/cb"); Authorize Provider (ex_req "https://evil.example/cb")]
+      [Authorize Provider (ex_req "https://sub.example.com/cb") W_None; Login 0; Callback Legacy (Some 0) CF_None W_None;
+       Authorize Legacy (ex_req "https://evil.example/cb") W_None; Authorize Provider (ex_req "https://evil.example/cb") W_None]
   = [OLogin "/login?id="; ONone; ORedirect false "" "https://sub.example.com/cb"; OPage 400 "invalid_request"; OPage 400 ""].
 Proof. vm_compute. reflexivity. Qed.
 
@@ -605,8 +681,28 @@ Definition ex_req_ro (u : string) : areq :=
 
 Example C03_nonvacuous_request_object :
   run ex_glob ex_info true EK_Plain [ex_client] []
-      [Authorize Provider (ex_req_ro "https://evil.example/cb"); Authorize Legacy (ex_req_ro "https://evil.example/cb");
-       Authorize Provider (ex_req_ro "https://sub.example.com/cb"); Login 0; Callback Provider (Some 0) CF_None]
+      [Authorize Provider (ex_req_ro "https://evil.example/cb") W_None; Authorize Legacy (ex_req_ro "https://evil.example/cb") W_None;
+       Authorize Provider (ex_req_ro "https://sub.example.com/cb") W_None; Login 0; Callback Provider (Some 0) CF_None W_None]
   = [OPage 400 ""; OPage 400 "invalid_request"; OLogin "/login?id="; ONone;
      ORedirect false "" "https://sub.example.com/cb"].
+Proof. vm_compute. reflexivity. Qed.
+
+(* two clients answering in form_post mode on one provider: the page for the first is cut while it is
+   written, the page for the second (and a replay of the first) still posts to the right client *)
+Definition ex_client_b : client :=
+  {| c_id := "b"; c_app := Web; c_dev := false; c_rtypes := ["code"];
+     c_redirects := ["https://b.example.org/cb"]; c_globs := None; c_login := "/login?id=" |}.
+Definition ex_req_fp (cid u : string) : areq :=
+  {| q_client := cid; q_uri := u; q_rt := "code"; q_mode := "form_post"; q_malformed := false; q_reqobj := RP_None;
+     q_prompt := P_Ok; q_noscope := false; q_hint_bad := false; q_fault := AF_None |}.
+
+Example C03_nonvacuous_write_fault :
+  run ex_glob ex_info true EK_Plain [ex_client; ex_client_b] []
+      [Authorize Provider (ex_req_fp "web" "https://app.example.com/cb") W_None;
+       Authorize Legacy (ex_req_fp "b" "https://b.example.org/cb") W_Early;
+       Login 0; Login 1;
+       Callback Provider (Some 0) CF_None W_Early; Callback Legacy (Some 1) CF_None W_None;
+       Callback Legacy (Some 0) CF_None W_Late; Callback Provider None CF_None W_Early]
+  = [OLogin "/login?id="; OLogin "/login?id="; ONone; ONone;
+     OUndelivered; OForm "https://b.example.org/cb"; OForm "https://app.example.com/cb"; OPage 400 ""].
 Proof. vm_compute. reflexivity. Qed.
